@@ -235,11 +235,7 @@ func runIndex(p *Plan, tape *simrt.Tape, opt RunOpt) *RunOut {
 						if q.loc == e.loc {
 							found = true
 							if !bytes.Equal(q.prefix, e.prefix) {
-								changed++
-								if !bytes.HasPrefix(e.prefix, q.prefix) {
-									fail("index/put-touched-other", "%v: insertion rewrote stored prefix %x to %x (not an extension)", *op, q.prefix, e.prefix)
-									return
-								}
+								changed++ // the statement allows an insertion to re-trim neighbours
 							}
 						}
 					}
@@ -248,12 +244,21 @@ func runIndex(p *Plan, tape *simrt.Tape, opt RunOpt) *RunOut {
 						return
 					}
 				}
-				if changed > 1 {
-					fail("index/put-touched-other", "%v: insertion lengthened %d other entries (at most one neighbour may change)", *op, changed)
-					return
-				}
-				if changed == 1 {
+				if changed > 0 {
 					probes["neighbour-extended"]++
+				}
+				// every entry that was there before must still be there (by location)
+				for _, q := range prev {
+					found := false
+					for _, e := range ents {
+						if e.loc == q.loc {
+							found = true
+						}
+					}
+					if !found {
+						fail("index/put-touched-other", "%v: insertion dropped the entry %x of another key", *op, q.prefix)
+						return
+					}
 				}
 			}
 			prevLists[b] = ents
